@@ -38,7 +38,10 @@ PROP = dict(
           "42%, name error, format error, server failures rcode 2/4/5/6/9/15, malformed, query echoed back, neighbouring id), duplicate of any earlier datagram "
           "from the same or another server, stale reply for a finished lookup, datagram while nothing is outstanding, clock advance of 1..1000 ms, isRunning probes; "
           "then time runs until everything outstanding has timed out, and late replies for timed-out, cancelled and completed lookups are delivered. udp: same "
-          "scripts, but the datagrams are sent by three fake servers bound to 127.0.0.{1,2,3}:53 in a private network namespace and reach the client through "
+          "scripts plus, for one reply in seven, a well-formed reply of 4097..9000 bytes (padding records of unknown type, then an A/CNAME record whose RDATA or header "
+          "straddles offset 4096, starts at it or lies behind it; followed by a normal reply half of the time): the client's receive buffer holds 4096 bytes, so the model "
+          "judges it on the first 4096 bytes only (a reply cut inside a record: may be ignored or answered from the bytes held; an address from behind the buffer is not "
+          "encoded in what was received). The datagrams are sent by three fake servers bound to 127.0.0.{1,2,3}:53 in a private network namespace and reach the client through "
           "UdpSocket and the loop's fd event. Non-trivial = at least one completed lookup, two replies, and one cancelled or timed-out lookup; distinct = hash of "
           "the operation script. wrap: one client, 65537+ lookups (60% answered, 20% cancelled, 20% left to time out), the clock advancing every 40 lookups."),
     assumptions=[
@@ -58,6 +61,8 @@ PROP = dict(
         "fewer than 65536 lookups are started within any 5 s of virtual time (an id is not reused while its previous user is outstanding or still has a timeout token)",
         "uninitialised reads are decided by valgrind memcheck on the plain build (about 120 datagrams per case); in the asan leg they are only visible through their "
         "effect: an outcome that changes with the stale contents of the stack. Datagrams run in the isolated child are not run under memcheck",
+        "a datagram longer than the 4096-byte buffer UdpSocket reads into counts as received only up to 4096 bytes (the kernel discards the rest); the model is shown "
+        "min(return value of recvfrom, buffer size) bytes, so it never credits the client with bytes it cannot hold",
         "the udp leg needs CAP_SYS_ADMIN (unshare(CLONE_NEWNET)) to get a private loopback on which 127.0.0.{1,2,3}:53 can be bound without disturbing the host",
     ],
     technique=("runtime monitoring: the real DnsRequest parses generated and hostile datagrams under ASan+UBSan (exactly sized inputs), valgrind memcheck and in an isolated "
@@ -92,6 +97,8 @@ PROP = dict(
             "reentrant_request_in_callback", "reentrant_cancel_other_in_callback", "isrunning_checks", "datagrams_sent_while_no_lookup_outstanding",
             # udp_socket.cpp path
             "udp_datagrams_sent_by_fake_servers", "udp_datagrams_consumed_by_client", "udp_queries_received_by_fake_servers",
+            # datagrams longer than UdpSocket's 4096-byte receive buffer, records straddling / behind the buffer end
+            "udp_oversized_datagrams_sent", "udp_oversized_reply_crossing_4096", "udp_oversized_followed_by_normal_reply",
             # id wrap-around
             "id_counter_wrapped",
         ],
